@@ -1,3 +1,4 @@
+import Mathlib.Tactic.Linarith
 import ElexModel.Core.NatSum
 import ElexModel.Gen.C08
 import ElexModel.Lemmas.Num
@@ -257,5 +258,31 @@ theorem bridge_shape :
     Gen.C08.state_read = ["self.B", "self.T", "self.aggregate_pred_margin", "self.called_contests", "self.divided_error_B_1",
       "self.divided_error_B_2", "self.hard_threshold", "self.national_summary_correlation", "self.stop_model_call"] :=
   ⟨rfl, rfl, rfl, rfl⟩
+
+end ElexModel.NatSum
+
+namespace ElexModel.NatSum
+open ElexModel
+
+/-- **C08 on the source**: per contest, the potential loss lies between 0 and the contest's contribution to the prediction, the
+    potential gain between 0 and what it does not contribute — so that `lower ≤ prediction ≤ upper` and both stay within
+    `[base, base + Σ weights]` for non-negative weights (`natsum_ordered`, `natsum_bounded`) -/
+theorem source_loss_gain_range (pred fracPos fracNeg lq : ℚ) (uncalled stop : Bool) :
+    0 ≤ Gen.C08.potential_loss pred fracPos fracNeg lq uncalled stop ∧
+    Gen.C08.potential_loss pred fracPos fracNeg lq uncalled stop ≤ Gen.C08.pred_state pred ∧
+    0 ≤ Gen.C08.potential_gain pred fracPos fracNeg lq uncalled stop ∧
+    Gen.C08.potential_gain pred fracPos fracNeg lq uncalled stop ≤ 1 - Gen.C08.pred_state pred := by
+  unfold Gen.C08.potential_loss Gen.C08.potential_gain Gen.C08.pred_state
+  generalize decide (pred > 0) = ps
+  generalize decide (fracNeg > lq) = bn
+  generalize decide (fracPos > lq) = bp
+  cases ps <;> cases bn <;> cases bp <;> cases uncalled <;> cases stop <;> simp [boolToRat, rmax_eq]
+
+/-- **C08 on the source**: a called contest that is not stop-listed contributes no uncertainty, whatever its draws -/
+theorem source_called_no_uncertainty (pred fracPos fracNeg lq : ℚ) :
+    Gen.C08.potential_loss pred fracPos fracNeg lq false false = 0 ∧
+    Gen.C08.potential_gain pred fracPos fracNeg lq false false = 0 := by
+  unfold Gen.C08.potential_loss Gen.C08.potential_gain
+  simp
 
 end ElexModel.NatSum
